@@ -12,6 +12,16 @@
    set of traces contains every interleaving.  The nondeterministic Go select
    is a choice between the enabled communication steps.
 
+   Redraw is modelled at two granularities.  [ERedraw f] is the whole call as one
+   step (used when the harness makes the call between two of its own records).
+   [ERedrawCall f] is only the invocation: the call then performs its two
+   halves as separate internal steps, [TRFirst f] = lock the mutex and set the
+   flag, [TRSecond] = send the token and unlock; between them the mutex is
+   held, so extractRedrawFull and other Redraw calls wait.  [step_ord true] is
+   the same system with the halves SWAPPED (token first, without the mutex,
+   then lock and set the flag): it is not the model of the code, it exists so
+   that the order is a proved necessity (props: C32_swapped_redraw_loses_full).
+
    Modelled, not verified: Go channels, select and sync.Mutex (standard
    semantics: buffered channel = bounded FIFO, non-blocking send = send if room,
    select = any ready case, default only if none is ready). *)
@@ -35,7 +45,8 @@ Inductive obs :=
 | CFinalStart (f : bool)     (* redrawCb(flag) entered, flag has the finalRedraw bit; f = fullRedraw bit *)
 | CFinalEnd
 | CReturned (r : N)          (* Run returned r *)
-| OQuiesce.                  (* loop blocked: in select, nothing pending *)
+| OQuiesce                   (* loop blocked: in select, nothing pending, no Redraw call in flight *)
+| ERedrawCall (f : bool).    (* lp.Redraw(f) invoked; its two halves follow as internal steps *)
 
 (* internal steps of Run that no callback sees *)
 Inductive tau :=
@@ -43,7 +54,9 @@ Inductive tau :=
 | TSelToken     (* select: case <-lp.redrawCh *)
 | TSelReturn    (* select: case ret := <-lp.returnCh *)
 | TChkRet       (* after handleCb: non-blocking receive on returnCh *)
-| TDrainNo.     (* drain select: default (no event ready) -> break *)
+| TDrainNo      (* drain select: default (no event ready) -> break *)
+| TRFirst (f : bool)  (* an invoked Redraw(f): lock redrawMutex, set redrawFull if f *)
+| TRSecond.           (* that call: non-blocking send on redrawCh, unlock *)
 
 Inductive label := Obs (o : obs) | Tau (t : tau).
 
@@ -60,54 +73,96 @@ Inductive pc :=
 | PFinalDone (r : N)        (* final redraw finished, Run not yet returned *)
 | PReturned (r : N).
 
-Record st := mkSt { inq : list N; tok : bool; full : bool; ret : option N; pcs : pc }.
+(* pendf / pendn: invoked Redraw(true) / Redraw(false) calls that have not yet
+   done anything; mid = Some f: a Redraw(f) call is between its two halves *)
+Record st := mkSt { inq : list N; tok : bool; full : bool; ret : option N; pcs : pc;
+                    pendf : nat; pendn : nat; mid : option bool }.
 
-Definition init : st := mkSt [] false false None PTop.
+Definition init : st := mkSt [] false false None PTop 0 0 None.
+
+Definition is_noneb (a : option bool) : bool := match a with None => true | _ => false end.
 
 Definition isnil {A} (l : list A) : bool := match l with [] => true | _ => false end.
 
-Definition quiescent (s : st) : bool :=
+(* the loop is at its select and nothing can wake it *)
+Definition loop_idle (s : st) : bool :=
   match pcs s with
   | PSelect => isnil (inq s) && negb (tok s) && match ret s with None => true | _ => false end
   | _ => false
   end.
 
-Definition step (s : st) (l : label) : option st :=
-  let '(mkSt q t f r p) := s in
+(* ... and no Redraw call is in flight *)
+Definition quiescent (s : st) : bool :=
+  loop_idle s && Nat.eqb (pendf s) 0 && Nat.eqb (pendn s) 0 && is_noneb (mid s).
+
+(* sw = false: the code (flag first, both halves under the mutex).
+   sw = true: the halves swapped (token first without the mutex, then flag). *)
+Definition step_ord (sw : bool) (s : st) (l : label) : option st :=
+  let '(mkSt q t f r p pf pn md) := s in
+  let mk := fun q t f r p => mkSt q t f r p pf pn md in
   match l with
   (* --- environment, enabled in every loop state --- *)
-  | Obs (EInput e) => if Nat.ltb (length q) cap then Some (mkSt (q ++ [e]) t f r p) else None
-  | Obs (ERedraw b) => Some (mkSt q true (f || b) r p)
-  | Obs (EReturn x) => Some (mkSt q t f (match r with None => Some x | _ => r end) p)
+  | Obs (EInput e) => if Nat.ltb (length q) cap then Some (mk (q ++ [e]) t f r p) else None
+  | Obs (ERedraw b) => match md with None => Some (mk q true (f || b) r p) | Some _ => None end
+  | Obs (ERedrawCall b) =>
+      Some (mkSt q t f r p (if b then S pf else pf) (if b then pn else S pn) md)
+  | Tau (TRFirst b) =>
+      match md with
+      | Some _ => None
+      | None =>
+        let t' := if sw then true else t in
+        let f' := if sw then f else f || b in
+        if b then match pf with S pf' => Some (mkSt q t' f' r p pf' pn (Some b)) | O => None end
+        else match pn with S pn' => Some (mkSt q t' f' r p pf pn' (Some b)) | O => None end
+      end
+  | Tau TRSecond =>
+      match md with
+      | Some b => if sw then Some (mkSt q t (f || b) r p pf pn None)
+                  else Some (mkSt q true f r p pf pn None)
+      | None => None
+      end
+  | Obs (EReturn x) => Some (mk q t f (match r with None => Some x | _ => r end) p)
   (* --- the loop --- *)
-  | Tau TExtract => match p with PTop => Some (mkSt q t false r (PExtracted f)) | _ => None end
+  | Tau TExtract =>
+      match p with
+      | PTop => if sw || is_noneb md then Some (mk q t false r (PExtracted f)) else None
+      | _ => None
+      end
   | Obs (CRedrawStart b) =>
-      match p with PExtracted b' => if Bool.eqb b b' then Some (mkSt q t f r PRedrawing) else None | _ => None end
-  | Obs CRedrawEnd => match p with PRedrawing => Some (mkSt q t f r PSelect) | _ => None end
-  | Tau TSelToken => match p with PSelect => if t then Some (mkSt q false f r PTop) else None | _ => None end
+      match p with PExtracted b' => if Bool.eqb b b' then Some (mk q t f r PRedrawing) else None | _ => None end
+  | Obs CRedrawEnd => match p with PRedrawing => Some (mk q t f r PSelect) | _ => None end
+  | Tau TSelToken => match p with PSelect => if t then Some (mk q false f r PTop) else None | _ => None end
   | Tau TSelReturn =>
-      match p, r with PSelect, Some x => Some (mkSt q t f None (PFinal x)) | _, _ => None end
+      match p, r with PSelect, Some x => Some (mk q t f None (PFinal x)) | _, _ => None end
   | Obs (CHandleStart e) =>
       match p, q with
-      | PSelect, e' :: q' | PDrain, e' :: q' => if N.eqb e e' then Some (mkSt q' t f r PHandling) else None
+      | PSelect, e' :: q' | PDrain, e' :: q' => if N.eqb e e' then Some (mk q' t f r PHandling) else None
       | _, _ => None
       end
-  | Obs CHandleEnd => match p with PHandling => Some (mkSt q t f r PAfterHandle) | _ => None end
+  | Obs CHandleEnd => match p with PHandling => Some (mk q t f r PAfterHandle) | _ => None end
   | Tau TChkRet =>
       match p with
       | PAfterHandle => match r with
-                        | Some x => Some (mkSt q t f None (PFinal x))
-                        | None => Some (mkSt q t f r PDrain)
+                        | Some x => Some (mk q t f None (PFinal x))
+                        | None => Some (mk q t f r PDrain)
                         end
       | _ => None
       end
-  | Tau TDrainNo => match p, q with PDrain, [] => Some (mkSt q t f r PTop) | _, _ => None end
+  | Tau TDrainNo => match p, q with PDrain, [] => Some (mk q t f r PTop) | _, _ => None end
   | Obs (CFinalStart b) =>
-      match p with PFinal x => if b then None else Some (mkSt q t f r (PFinalRedrawing x)) | _ => None end
-  | Obs CFinalEnd => match p with PFinalRedrawing x => Some (mkSt q t f r (PFinalDone x)) | _ => None end
+      match p with PFinal x => if b then None else Some (mk q t f r (PFinalRedrawing x)) | _ => None end
+  | Obs CFinalEnd => match p with PFinalRedrawing x => Some (mk q t f r (PFinalDone x)) | _ => None end
   | Obs (CReturned x) =>
-      match p with PFinalDone y => if N.eqb x y then Some (mkSt q t f r (PReturned y)) else None | _ => None end
+      match p with PFinalDone y => if N.eqb x y then Some (mk q t f r (PReturned y)) else None | _ => None end
   | Obs OQuiesce => if quiescent s then Some s else None
+  end.
+
+Definition step : st -> label -> option st := step_ord false.
+
+Fixpoint run_ord (sw : bool) (s : st) (ts : list label) : option st :=
+  match ts with
+  | [] => Some s
+  | l :: r => match step_ord sw s l with Some s' => run_ord sw s' r | None => None end
   end.
 
 Fixpoint run (s : st) (ts : list label) : option st :=
@@ -161,7 +216,7 @@ Definition mstep (m : mon) (o : obs) : mon :=
   let idle := cbk_eqb cb KNone && negb dn in
   match o with
   | EInput e => mkMon ok (acc ++ [e]) cb uns unsf fst fin dn
-  | ERedraw f => mkMon ok acc cb true (unsf || f) fst fin dn
+  | ERedraw f | ERedrawCall f => mkMon ok acc cb true (unsf || f) fst fin dn
   | EReturn r => mkMon ok acc cb uns unsf (match fst with None => Some r | _ => fst end) fin dn
   | CRedrawStart f =>
       mkMon (ok && idle && Nat.eqb fin 0) acc KRedraw false (unsf && negb f) fst fin dn
@@ -188,7 +243,8 @@ Definition check_C32 (os : list obs) : bool := m_ok (mrun mon0 os).
 (* The acceptor: is the observed trace a behaviour of the model?  Simulates the
    set of model states compatible with the observations so far; before every
    observation the loop may have taken any enabled internal steps. *)
-Definition all_taus : list tau := [TExtract; TSelToken; TSelReturn; TChkRet; TDrainNo].
+Definition all_taus : list tau :=
+  [TExtract; TSelToken; TSelReturn; TChkRet; TDrainNo; TRFirst true; TRFirst false; TRSecond].
 
 Definition tau_succ (s : st) : list st :=
   flat_map (fun t => match step s (Tau t) with Some s' => [s'] | None => [] end) all_taus.
@@ -211,7 +267,9 @@ Definition pc_eqb (a b : pc) : bool :=
 
 Definition st_eqb (a b : st) : bool :=
   list_eqb N.eqb (inq a) (inq b) && Bool.eqb (tok a) (tok b) && Bool.eqb (full a) (full b)
-  && opt_eqb (ret a) (ret b) && pc_eqb (pcs a) (pcs b).
+  && opt_eqb (ret a) (ret b) && pc_eqb (pcs a) (pcs b)
+  && Nat.eqb (pendf a) (pendf b) && Nat.eqb (pendn a) (pendn b)
+  && option_eqb Bool.eqb (mid a) (mid b).
 
 Fixpoint dedup (l : list st) : list st :=
   match l with
@@ -222,7 +280,7 @@ Fixpoint dedup (l : list st) : list st :=
 Definition after_obs (cfgs : list st) (o : obs) : list st :=
   dedup (flat_map (fun s =>
            flat_map (fun s' => match step s' (Obs o) with Some s'' => [s''] | None => [] end)
-                    (closure 4 s)) cfgs).
+                    (closure 6 s)) cfgs).
 
 Fixpoint accept_from (cfgs : list st) (os : list obs) : bool :=
   match os with
